@@ -780,6 +780,10 @@ func main() {
 		patientConsumer(run, i)
 	}
 	run.FloorCounter("patient_consumer_listings", 40)
+	for i := 0; i < 24; i++ {
+		nestedTraversals(run, i)
+	}
+	run.FloorCounter("nested_traversals", 90)
 	run.FloorCounter("listing_filtered_out", 10)
 	run.FloorCounter("star_name_calls", 20)
 	run.FloorCounter("non_canonical_name_calls", 100)
